@@ -10,6 +10,7 @@ Trace lines:  ask n / rx <hex> / wouldblock / st s e state sbpos flags / cmd <he
 import NV.Common.Proto
 import NV.C13.Model
 import NV.C13.Spec
+import NV.C13.SpecStall
 
 namespace NV.C13
 
@@ -153,11 +154,11 @@ def runJudge (body : List String) : List String :=
   let (input, impl) := splitJudge body
   match parseCase input with
   | .error l => [s!"bad unparsable-case {l}"]
-  | .ok (p, cbs, _) =>
+  | .ok (p, cbs, ops) =>
     let evs := impl.map (fun l => match parseEv l with
       | some e => e
       | none => Ev.crash l)          -- `crash ...`, `sanitizer ...` and anything unknown
-    match judgeEv p evs (cbs.any (fun e => e.2 == Outcome.dest)) with
+    match judgeEv p evs (cbs.any (fun e => e.2 == Outcome.dest)) ++ judgeStall (sentOf ops) (finishedOf ops) evs with
     | [] => ["ok"]
     | vs => vs.map (fun v => s!"bad {v}")
 
